@@ -9,6 +9,7 @@ import (
 	"github.com/jech/galene/conn"
 	"github.com/jech/galene/group"
 	"github.com/jech/galene/sdpfrag"
+	"github.com/jech/galene/verifhook"
 
 	"github.com/pion/sdp/v3"
 	"github.com/pion/webrtc/v4"
@@ -57,6 +58,7 @@ func (c *WhipClient) Init(username string, perms []string) {
 }
 
 func (c *WhipClient) Permissions() []string {
+	verifhook.At("whip.Permissions.before", c)
 	c.mu.Lock()
 	defer c.mu.Unlock()
 	return c.permissions
@@ -117,6 +119,7 @@ func (c *WhipClient) Kick(id string, user *string, message string) error {
 func (c *WhipClient) Close() error {
 	c.mu.Lock()
 	defer c.mu.Unlock()
+	verifhook.At("whip.Close.locked", c)
 	g := c.group
 	if g == nil {
 		return nil
